@@ -19,7 +19,7 @@ Cult(e) == [tsep |-> IF e.type \in {"LocalTime", "LocalDateTime", "Instant", "Of
             am |-> e.am, pm |-> e.pm,
             hasDay |-> HasTok(e.tokens, {"d", "dd"}), names |-> IF Has(e, "names") THEN e.names ELSE <<>>]
 Predictable(e) ==
-  /\ Has(e, "exact_tokens") /\ e.exact_tokens /\ Has(e, "text") /\ Has(e, "am")
+  /\ Has(e, "exact_tokens") /\ e.exact_tokens /\ Has(e, "text") /\ Has(e, "am") /\ ~Has(e, "spliced")
   /\ CASE e.type = "Offset" -> Understood(e.tokens, OffsetFmtVocab)
         [] e.type = "Duration" -> Understood(e.tokens, DurationFmtVocab) /\ e.parts.days < 2000000000
         [] e.type \in {"LocalTime", "LocalDate", "LocalDateTime", "AnnualDate", "Instant"} ->
@@ -64,7 +64,8 @@ Step(e) ==
   /\ (Predictable(e) => RefCheck(e.text = RefText(e), "text_is_what_the_reference_formatter_gives"))
   \* (every pattern type rejects the empty string by design, so a pattern of optional fields only makes no
   \*  promise for the values it renders as nothing)
-  /\ IF Has(e, "parsed_ok") /\ Len(e.text) > 0 /\ ~SepAmbiguous(e) /\ Applies(e)
+  \* (a spliced text - fields of two values - comes from no value: the first law says nothing about it, the second does)
+  /\ IF Has(e, "parsed_ok") /\ Len(e.text) > 0 /\ ~SepAmbiguous(e) /\ ~Has(e, "spliced") /\ Applies(e)
      THEN /\ Check(e.parsed_ok, "representable_value_parses_back")
           /\ (e.parsed_ok => Check(e.parsed = e.value, "parsing_the_formatted_text_returns_the_original_value"))
      ELSE TRUE
